@@ -100,6 +100,17 @@ Definition kernel_rep (indptr : list nat) (data : list Z) (draws : list (list Z)
                end)
             (seq 0 (length indptr - 1)) (Some (data, draws)).
 
+(* the per-segment results, the draws threaded through in order *)
+Fixpoint seg_results (n : nat) (segs : list (list Z)) (draws : list (list Z)) (ok : bool)
+  : list (list Z) * list (list Z) * bool :=
+  match segs with
+  | [] => ([], draws, ok)
+  | seg :: rest =>
+      let '(o, draws', ok') := sub_seg n seg draws in
+      let '(os, draws'', ok'') := seg_results n rest draws' (ok && ok') in
+      (o :: os, draws'', ok'')
+  end.
+
 (* ---- the same per vector of the table, through the layout ---- *)
 (* a layout shorter than the table reads as "nothing stored" for the remaining vectors, so the
    result always has one vector per id *)
